@@ -1011,6 +1011,79 @@ class _CallLambda(ast.NodeTransformer):
         return ast.copy_location(Sub().visit(copy.deepcopy(f.body)), node)
 
 
+def _sink_flags(fn):
+    """Result flags left by the expansion of a predicate helper with a side effect:
+
+        with L:                                   with L:
+            ...                                       ...
+            if C: _hN_x = False          ==>          if C: pass
+            else: S; _hN_x = True                     else: S; T
+        if _hN_x: T
+
+    when T only binds locals to names / constants and ends the path (return / break / continue) or is empty of effects: running
+    it one statement earlier, still inside the block, changes nothing the rules (or the program) can observe."""
+    done = 0
+
+    def simple_tail(stmts):
+        for st in stmts:
+            if isinstance(st, ast.Assign) and all(isinstance(t, ast.Name) for t in st.targets) and isinstance(st.value, (ast.Constant, ast.Name)):
+                continue
+            if isinstance(st, ast.Return) and (st.value is None or isinstance(st.value, (ast.Constant, ast.Name))):
+                continue
+            if isinstance(st, (ast.Break, ast.Continue, ast.Pass)):
+                continue
+            return False
+        return True
+
+    def last_if(st):
+        body = getattr(st, "body", None)
+        while isinstance(st, (ast.With,)) and body:
+            inner = body[-1]
+            if isinstance(inner, ast.If):
+                return inner
+            if isinstance(inner, ast.With):
+                st, body = inner, inner.body
+                continue
+            return None
+        return None
+
+    for holder in ast.walk(fn):
+        for fld in ("body", "orelse", "finalbody"):
+            blk = getattr(holder, fld, None)
+            if not isinstance(blk, list):
+                continue
+            i = 0
+            while i + 1 < len(blk):
+                a, b = blk[i], blk[i + 1]
+                i += 1
+                if not (isinstance(b, ast.If) and not b.orelse and isinstance(b.test, ast.Name) and b.test.id.startswith("_h") and simple_tail(b.body)):
+                    continue
+                flag = b.test.id
+                inner = last_if(a) if isinstance(a, ast.With) else None
+                if inner is None or not inner.orelse:
+                    continue
+                def flag_set(stmts):
+                    if stmts and isinstance(stmts[-1], ast.Assign) and len(stmts[-1].targets) == 1 and isinstance(stmts[-1].targets[0], ast.Name) \
+                            and stmts[-1].targets[0].id == flag and isinstance(stmts[-1].value, ast.Constant) and isinstance(stmts[-1].value.value, bool):
+                        return stmts[-1].value.value
+                    return None
+                tv, fv = flag_set(inner.body), flag_set(inner.orelse)
+                if tv is None or fv is None or tv == fv:
+                    continue
+                uses = [n for n in ast.walk(fn) if isinstance(n, ast.Name) and n.id == flag]
+                if len(uses) != 3:
+                    continue
+                true_branch, false_branch = (inner.body, inner.orelse) if tv else (inner.orelse, inner.body)
+                true_branch[-1:] = copy.deepcopy(b.body)
+                false_branch[-1:] = [ast.Pass()] if len(false_branch) == 1 else []
+                blk.remove(b)
+                done += 1
+                i -= 1
+    if done:
+        ast.fix_missing_locations(fn)
+    return done
+
+
 class _LiteralAttr(ast.NodeTransformer):
     """getattr(x, "name") -> x.name ; setattr(x, "name", v) as a statement -> x.name = v   (literal identifier that is not
     class-private: inside a class body `x.__n` would be mangled while the string is not)"""
@@ -1165,6 +1238,8 @@ def inline_module(module_name, tree):
         # the expanded bodies may contain the idioms the earlier passes normalise (aliases, displays spread into calls, ...)
         _ReturnIfExp().visit(tree)
         _LiteralAttr().visit(tree)
+        for fn_ in [n for n in ast.walk(tree) if isinstance(n, ast.FunctionDef)]:
+            _sink_flags(fn_)
         ast.fix_missing_locations(tree)
         counter = [1000]
         for st in ast.walk(tree):
